@@ -633,15 +633,33 @@ def _data_files(ctx, res) -> None:
     def stream_path(fn, api: str) -> Optional[str]:
         """path expression of the open() whose handle is passed to pickle.<api>."""
         handles = {}
+        singles: Dict[str, List[ast.expr]] = {}
+        for n in walk_local(fn):
+            if isinstance(n, ast.Assign):
+                for t in n.targets:
+                    if isinstance(t, ast.Name):
+                        singles.setdefault(t.id, []).append(n.value)
+
+        class _Sub(ast.NodeTransformer):
+            def visit_Name(self, node):
+                v = singles.get(node.id)
+                if isinstance(node.ctx, ast.Load) and v is not None and len(v) == 1 and not any(isinstance(x, ast.Call) and call_name(x) == "open" for x in ast.walk(v[0])):
+                    import copy
+                    return self.visit(copy.deepcopy(v[0])) if sum(1 for _ in ast.walk(v[0])) < 40 else node
+                return node
+
+        def pnorm(e):  # a path held in a local that is bound once reads like the expression it was bound to
+            import copy
+            return norm(_Sub().visit(copy.deepcopy(e)))
         for n in walk_local(fn):
             if isinstance(n, ast.With):
                 for it in n.items:
                     if isinstance(it.context_expr, ast.Call) and call_name(it.context_expr) == "open" and it.optional_vars is not None:
-                        handles[it.optional_vars.id] = norm(it.context_expr.args[0])
+                        handles[it.optional_vars.id] = pnorm(it.context_expr.args[0])
             if isinstance(n, ast.Assign) and isinstance(n.value, ast.Call):
                 for x in ast.walk(n.value):
                     if isinstance(x, ast.Call) and call_name(x) == "open" and x.args and isinstance(n.targets[0], ast.Name):
-                        handles[n.targets[0].id] = norm(x.args[0])
+                        handles[n.targets[0].id] = pnorm(x.args[0])
         for c in calls_in(fn):
             if isinstance(c.func, ast.Attribute) and c.func.attr == api and isinstance(c.func.value, ast.Name) \
                     and c.func.value.id == "pickle":
